@@ -494,5 +494,58 @@ pub fn run(rep: &mut Report, driver: &str, workers: usize, thorough: bool, seed:
             }
         }
     }
+    // (h) many abandoned evaluations, each dropped while it is suspended 40 operators deep inside a user function, then a
+    //     fresh evaluation: whatever an evaluation counted, reserved or guarded on the way down must be released when it is
+    //     dropped, however deep it was and however many were dropped before
+    {
+        let depth = 40usize;
+        let mut e = call("g", reff("x"));
+        for _ in 0..depth {
+            e = mk_un("neg", e);
+        }
+        let mut e2 = call("g", reff("x"));
+        for _ in 0..depth {
+            e2 = mk_bin("add", lit(Value::Int(1)), e2);
+        }
+        let rules = vec![e, e2, call("g", reff("x"))];
+        let mut g = FnSpec::new("g", false, FnKind::Id);
+        g.pends = 1;
+        let env = EnvSpec { syms: vec![], fns: vec![g] };
+        let facts = crate::pool::map(&[("x", Value::Int(7))]);
+        let shared = Arc::new(Shared::default());
+        let r = catch_unwind(AssertUnwindSafe(|| {
+            let rs = build_ruleset(&rules, &env, &shared).expect("ruleset");
+            let alone = block_on(mk_fut(&rs, &facts));
+            let n = if thorough { 3000 } else { 400 };
+            let mut first_bad: Option<(usize, String)> = None;
+            for k in 0..n {
+                // poll once (suspended at depth 40 of rule 0) or three times (inside rule 1), then drop
+                let mut f = mk_fut(&rs, &facts);
+                for _ in 0..(1 + 2 * (k % 2)) {
+                    if poll_once(&mut f).is_some() {
+                        break;
+                    }
+                }
+                drop(f);
+                if k % 50 == 49 || k < 12 {
+                    let got = block_on(mk_fut(&rs, &facts));
+                    if got != alone && first_bad.is_none() {
+                        first_bad = Some((k + 1, got));
+                    }
+                }
+            }
+            (alone, first_bad, n)
+        }));
+        sr.count("deep-abandonment", true);
+        sr.hist("kind", "deep-abandonment");
+        match r {
+            Err(p) => rep.add_finding(Finding { kind: "impl-violates-property".into(), stream: "poll-schedules".into(), case: "deep-abandonment".into(), human: "evaluations dropped while suspended 40 operators deep, then a fresh evaluation".into(), impl_out: format!("PANIC {}", panic_msg(p)), model_out: String::new(), predicate: "an abandoned evaluation leaves nothing behind".into(), signature: "C12 deep-abandonment".into() }),
+            Ok((alone, bad, n)) => {
+                if let Some((k, got)) = bad {
+                    rep.add_finding(Finding { kind: "impl-violates-property".into(), stream: "poll-schedules".into(), case: "deep-abandonment".into(), human: format!("after {} (of {}) evaluations were dropped while suspended {} operators deep inside a user function, a fresh evaluation of the same ruleset differs from the evaluation run before any was dropped", k, n, depth), impl_out: got.chars().take(300).collect(), model_out: alone.chars().take(300).collect(), predicate: "an abandoned evaluation leaves nothing behind: later evaluations return what they return on a fresh ruleset".into(), signature: "C12 deep-abandonment".into() });
+                }
+            }
+        }
+    }
     rep.streams.push(sr);
 }
